@@ -1,6 +1,6 @@
 //! `#[derive(DumpParse)]`: runs /repo's own declaration parser (derive/src/parse.rs, included by path, unmodified) on the item and appends,
 //! for every named field, the token tree of its type and the parse result to the file named by $PD_DUMP. Used to tie the Coq model of
-//! `next_type` (coq/parse/ParseModel.v) to the code.
+//! `next_type` (coq/parse/ParseModel.v) and of the printer `Type::full` (coq/parse/ParsePrint.v) to the code.
 extern crate alloc;
 extern crate proc_macro;
 #[allow(unused_macros, dead_code)]
@@ -103,8 +103,21 @@ pub fn dump_parse(input: TokenStream) -> TokenStream {
             text.push_str(&format!("STRUCT {} OK generics={:?}\n", sname, s.generics.iter().map(|g| g.full()).collect::<Vec<_>>()));
             for (name, ty) in &fields {
                 let mut t = String::new(); tt_text(ty, &mut t);
-                let parsed_ty = s.fields.iter().find(|f| f.field_name.as_deref() == Some(name.as_str())).map(|f| ty_text(&f.ty)).unwrap_or_else(|| "MISSING".to_string());
+                let field = s.fields.iter().find(|f| f.field_name.as_deref() == Some(name.as_str()));
+                let parsed_ty = field.map(|f| ty_text(&f.ty)).unwrap_or_else(|| "MISSING".to_string());
                 text.push_str(&format!("FIELD {}.{} TOKENS {}\nFIELD {}.{} TYPE {}\n", sname, name, t, sname, name, parsed_ty));
+                // the printer: Type::full() as the templates splice it, lexed again the way rustc will
+                let printed = match field {
+                    None => "MISSING".to_string(),
+                    Some(f) => match std::panic::catch_unwind(|| f.ty.full()) {
+                        Err(_) => "PANIC".to_string(),
+                        Ok(st) => match st.parse::<TokenStream>() {
+                            Err(_) => format!("LEXERROR {}", st),
+                            Ok(ts) => { let v: Vec<TokenTree> = ts.into_iter().collect(); let mut o = String::new(); tt_text(&v, &mut o); o }
+                        },
+                    },
+                };
+                text.push_str(&format!("FIELD {}.{} PRINT {}\n", sname, name, printed));
             }
         }
         Ok(_) => text.push_str(&format!("STRUCT {} NOT-A-STRUCT\n", sname)),
